@@ -429,10 +429,20 @@ Fixpoint chan_content (rem : N) (c : list bytes) (final : N) : Prop :=
 Definition acks_of (c : list bytes) : list N :=
   flat_map (fun b => match get_ack (fst (seg_of b)) with Some a => [a] | None => [] end) c.
 
+(** the ACKs on their way back to the sender, oldest first: each acknowledges
+    strictly more than the one before ([dist] strictly decreasing, below what
+    the sender has outstanding, not below what is still in flight or unacknowledged) *)
 Fixpoint acks_chain (last hi lo : N) (l : list N) : Prop :=
   match l with
   | [] => True
-  | a :: t => a < 256 /\ lo <= dist last a <= hi /\ acks_chain last (dist last a) lo t
+  | a :: t => a < 256 /\ lo <= dist last a /\ dist last a < hi /\ acks_chain last (dist last a) lo t
+  end.
+
+(** what the sender will have outstanding once every ACK in flight has arrived *)
+Fixpoint chain_end (last hi : N) (l : list N) : N :=
+  match l with
+  | [] => hi
+  | a :: t => chain_end last (dist last a) t
   end.
 
 Definition partial (rem : N) (pb : bytes) : bytes :=
@@ -460,7 +470,10 @@ Definition dirinv (sw : sendw) (buf : bytes) (off : N) (rw : recvw)
     slast sw < 256 /\ rack_seq rw < 256 /\
     acks_chain (slast sw) (w - slevel sw) (nlen cxy + rack_level rw) (acks_of cyx) /\
     chan_content (rrem rw) cxy (rem_of buf off) /\
-    blen (rbuf rw) <= 1234 + rack_level rw * m.
+    blen (rbuf rw) <= 1234 + rack_level rw * m /\
+    (* no lost ACK: everything the sender has outstanding is in flight, or remembered
+       by the receiver as unacknowledged, or covered by an ACK in flight *)
+    chain_end (slast sw) (w - slevel sw) (acks_of cyx) = nlen cxy + rack_level rw.
 
 Lemma chan_seqs_snoc c : forall e b,
   chan_seqs e c -> h_seq (fst (seg_of b)) = wrap8 (e + nlen c) -> e < 256 ->
@@ -488,30 +501,59 @@ Lemma acks_of_snoc c b :
 Proof. unfold acks_of. rewrite flat_map_app. cbn [flat_map]. rewrite app_nil_r. reflexivity. Qed.
 
 Lemma acks_chain_shift last l : forall hi lo,
-  last < 256 -> hi < 255 -> acks_chain last hi lo l ->
+  last < 256 -> hi < 256 -> acks_chain last hi lo l ->
   acks_chain (wrap8 (last + 1)) (hi + 1) (lo + 1) l.
 Proof.
   induction l as [|a l IH]; intros hi lo Hl Hhi Hc; cbn [acks_chain] in *; [trivial|].
-  destruct Hc as (Ha & Hd & Hc).
-  rewrite dist_succ by lia. split; [assumption|]. split; [lia|].
+  destruct Hc as (Ha & Hd & Hd2 & Hc).
+  rewrite dist_succ by lia. split; [assumption|]. split; [lia|]. split; [lia|].
   apply IH; [assumption|lia|assumption].
 Qed.
 
+Lemma chain_end_shift last l : forall hi lo,
+  last < 256 -> hi < 256 -> acks_chain last hi lo l ->
+  chain_end (wrap8 (last + 1)) (hi + 1) l = chain_end last hi l + 1.
+Proof.
+  induction l as [|a l IH]; intros hi lo Hl Hhi Hc; cbn [acks_chain chain_end] in *; [reflexivity|].
+  destruct Hc as (Ha & Hd & Hd2 & Hc).
+  rewrite dist_succ by lia. eapply IH; [assumption|lia|eassumption].
+Qed.
+
 Lemma acks_chain_snoc last l : forall hi lo lo' a,
-  acks_chain last hi lo l -> lo' <= lo -> lo <= hi -> a < 256 -> dist last a = lo' ->
+  acks_chain last hi lo l -> lo' < lo -> lo <= hi -> a < 256 -> dist last a = lo' ->
   acks_chain last hi lo' (l ++ [a]).
 Proof.
   induction l as [|x l IH]; intros hi lo lo' a Hc Hlo Hhi Ha Hd; cbn [app acks_chain] in *.
   - repeat split; try assumption; lia.
-  - destruct Hc as (Hx & Hdx & Hc). split; [assumption|]. split; [lia|].
-    eapply IH; try eassumption. lia.
+  - destruct Hc as (Hx & Hdx & Hdx2 & Hc). split; [assumption|]. split; [lia|]. split; [assumption|].
+    eapply IH; try eassumption.
 Qed.
+
+Lemma chain_end_snoc last l : forall hi a,
+  chain_end last hi (l ++ [a]) = dist last a.
+Proof. induction l as [|x l IH]; intros hi a; cbn [app chain_end]; [reflexivity|apply IH]. Qed.
 
 Lemma acks_chain_lower last l : forall hi lo lo',
   acks_chain last hi lo l -> lo' <= lo -> acks_chain last hi lo' l.
 Proof.
   induction l as [|x l IH]; intros hi lo lo' Hc Hlo; cbn [acks_chain] in *; [trivial|].
-  destruct Hc as (Hx & Hdx & Hc). split; [assumption|]. split; [lia|]. eapply IH; eassumption.
+  destruct Hc as (Hx & Hdx & Hdx2 & Hc). split; [assumption|]. split; [lia|]. split; [assumption|].
+  eapply IH; eassumption.
+Qed.
+
+(** the chain never ends above the sender's outstanding count *)
+Lemma chain_end_le last l : forall hi lo, acks_chain last hi lo l -> chain_end last hi l <= hi.
+Proof.
+  induction l as [|x l IH]; intros hi lo Hc; cbn [acks_chain chain_end] in *; [lia|].
+  destruct Hc as (_ & _ & Hd & Hc). specialize (IH _ _ Hc). lia.
+Qed.
+
+(** ... and strictly below it when an ACK is in flight *)
+Lemma chain_end_lt last l hi lo :
+  acks_chain last hi lo l -> l <> [] -> chain_end last hi l < hi.
+Proof.
+  destruct l as [|x l]; [congruence|]. cbn [acks_chain chain_end]. intros (_ & _ & Hd & Hc) _.
+  pose proof (chain_end_le _ _ _ _ Hc). lia.
 Qed.
 
 Lemma partial_len rem pb : blen pb + rem <= MAX_TX -> blen (partial rem pb) <= 1234.
@@ -565,7 +607,7 @@ Lemma dir_emit_tx sw buf off rw cxy cyx q h p buf' off' :
          (cxy ++ [hdr_encode h ++ p]) cyx q.
 Proof.
   intros (done & tailq & pb & Hq & Hn & Hbuf & Hpb & Hpl & Heq & Hmsgs & _ & _ & _ & Hsegs & Hseqs & Hlast
-          & Hwin & Hlev & Hsw & Hsl & Hrs & Hacks & Hcont & Hspace)
+          & Hwin & Hlev & Hsw & Hsl & Hrs & Hacks & Hcont & Hspace & Hexact)
          Hlev1 Hwf Hshape Hhon Hch Hnext Hrest Hseq Ho1 Ho2 Ho3.
   pose proof (seg_of_encode h p Hwf) as Eseg.
   exists done, tailq, pb.
@@ -594,7 +636,9 @@ Proof.
   { rewrite <- Hnext.
     pose proof (chan_content_snoc cxy (rrem rw) (rem_of buf off) (hdr_encode h ++ p) Hcont) as Hs.
     rewrite Eseg in Hs. cbn [fst snd] in Hs. apply Hs. exact Hch. }
-  assumption.
+  split; [assumption|].
+  replace (w - (slevel sw - 1)) with (w - slevel sw + 1) by lia.
+  erewrite chain_end_shift; [|assumption|lia|eassumption]. lia.
 Qed.
 
 Lemma dir_emit_rx sw buf off rw cxy cyx q h p :
@@ -606,15 +650,15 @@ Lemma dir_emit_rx sw buf off rw cxy cyx q h p :
     cxy (cyx ++ [hdr_encode h ++ p]) q.
 Proof.
   intros (done & tailq & pb & Hq & Hn & Hbuf & Hpb & Hpl & Heq & Hmsgs & Ho1 & Ho2 & Ho3 & Hsegs & Hseqs & Hlast
-          & Hwin & Hlev & Hsw & Hsl & Hrs & Hacks & Hcont & Hspace) Hwf Hack.
+          & Hwin & Hlev & Hsw & Hsl & Hrs & Hacks & Hcont & Hspace & Hexact) Hwf Hack.
   pose proof (seg_of_encode h p Hwf) as Eseg.
   exists done, tailq, pb.
   rewrite acks_of_snoc, Eseg. cbn [fst]. rewrite Hack.
   destruct (rw_pending_ack rw) as [a|] eqn:Epa; cbn [is_some].
-  - assert (Ea : a = rack_seq rw /\ rmsgs rw = 0).
-    { unfold rw_pending_ack in Epa. destruct (0 <? rack_level rw); cbn [andb] in Epa; [|discriminate].
-      destruct (N.eqb_spec (rmsgs rw) 0); inversion Epa. auto. }
-    destruct Ea as [-> Hm0].
+  - assert (Ea : a = rack_seq rw /\ rmsgs rw = 0 /\ 1 <= rack_level rw).
+    { unfold rw_pending_ack in Epa. destruct (N.ltb_spec 0 (rack_level rw)); cbn [andb] in Epa; [|discriminate].
+      destruct (N.eqb_spec (rmsgs rw) 0); inversion Epa. repeat split; try assumption; lia. }
+    destruct Ea as (-> & Hm0 & Hr1).
     cbn [rbuf rmsgs rrem rack_level rack_seq]. rewrite !N.add_0_r.
     repeat (split; [assumption|]).
     split; [lia|]. split; [assumption|]. split; [assumption|]. split; [assumption|]. split; [assumption|].
@@ -622,9 +666,11 @@ Proof.
     { eapply acks_chain_snoc; try eassumption; try lia.
       eapply dist_of_len; try eassumption; lia. }
     split; [assumption|].
-    (* nothing complete is waiting: the buffer holds at most one partial SDU *)
-    assert (done = []) by (destruct done; [reflexivity|rewrite nlen_cons in Hn; lia]). subst done.
-    rewrite Hbuf. cbn [map concat app]. pose proof (partial_len _ _ Hpl). lia.
+    split.
+    { (* nothing complete is waiting: the buffer holds at most one partial SDU *)
+      assert (done = []) by (destruct done; [reflexivity|rewrite nlen_cons in Hn; lia]). subst done.
+      rewrite Hbuf. cbn [map concat app]. pose proof (partial_len _ _ Hpl). lia. }
+    rewrite chain_end_snoc. eapply dist_of_len; try eassumption; lia.
   - rewrite app_nil_r. repeat (split; [assumption|]). assumption.
 Qed.
 
@@ -633,24 +679,28 @@ Lemma dir_deliver_tx sw buf off rw cxy b cyx q :
   sw_check_incoming sw (fst (seg_of b)) = Ok tt /\
   dirinv (match get_ack (fst (seg_of b)) with
           | Some a => mkSW (swin sw) (swin sw - wrap8 (slast sw + 256 - a)) (slast sw)
-          | None => sw end) buf off rw cxy cyx q.
+          | None => sw end) buf off rw cxy cyx q /\
+  match get_ack (fst (seg_of b)) with
+  | Some a => 1 <= swin sw - wrap8 (slast sw + 256 - a)   (* an ACK always re-opens the window *)
+  | None => acks_of (b :: cyx) = acks_of cyx
+  end.
 Proof.
   intros (done & tailq & pb & Hq & Hn & Hbuf & Hpb & Hpl & Heq & Hmsgs & Ho1 & Ho2 & Ho3 & Hsegs & Hseqs & Hlast
-          & Hwin & Hlev & Hsw & Hsl & Hrs & Hacks & Hcont & Hspace).
-  unfold acks_of in Hacks. cbn [flat_map] in Hacks. fold (acks_of cyx) in Hacks.
+          & Hwin & Hlev & Hsw & Hsl & Hrs & Hacks & Hcont & Hspace & Hexact).
+  unfold acks_of in Hacks, Hexact. cbn [flat_map] in Hacks, Hexact. fold (acks_of cyx) in Hacks, Hexact.
   unfold sw_check_incoming.
-  destruct (get_ack (fst (seg_of b))) as [a|].
-  - cbn [app acks_chain] in Hacks. destruct Hacks as (Ha & Hd & Hacks). unfold dist in *.
+  destruct (get_ack (fst (seg_of b))) as [a|] eqn:Eg.
+  - cbn [app acks_chain chain_end] in Hacks, Hexact. destruct Hacks as (Ha & Hd & Hd2 & Hacks). unfold dist in *.
     rewrite Hsw. rewrite csub_ok by lia. cbn [bind].
     destruct (N.ltb_spec (w - slevel sw) (wrap8 (slast sw + 256 - a))); [lia|].
-    split; [reflexivity|].
+    split; [reflexivity|]. split; [|lia].
     exists done, tailq, pb. cbn [swin slevel slast].
     repeat (split; [assumption|]).
     split; [lia|]. split; [lia|]. split; [reflexivity|]. split; [assumption|]. split; [assumption|].
-    split; [|split; assumption].
     replace (w - (w - wrap8 (slast sw + 256 - a))) with (wrap8 (slast sw + 256 - a)) by lia.
-    exact Hacks.
-  - split; [reflexivity|]. cbn [app] in Hacks.
+    split; [exact Hacks|]. split; [assumption|]. split; [assumption|]. exact Hexact.
+  - split; [reflexivity|]. cbn [app] in Hacks, Hexact.
+    split; [|unfold acks_of at 1; cbn [flat_map]; rewrite Eg; reflexivity].
     exists done, tailq, pb. repeat (split; [assumption|]). assumption.
 Qed.
 
@@ -674,7 +724,7 @@ Lemma dir_deliver_rx sw buf off rw b cxy cyx q :
               dirinv sw buf off rw' cxy cyx q.
 Proof.
   intros (done & tailq & pb & Hq & Hn & Hbuf & Hpb & Hpl & Heq & Hmsgs & Ho1 & Ho2 & Ho3 & Hsegs & Hseqs & Hlast
-          & Hwin & Hlev & Hsw & Hsl & Hrs & Hacks & Hcont & Hspace) Hrw.
+          & Hwin & Hlev & Hsw & Hsl & Hrs & Hacks & Hcont & Hspace & Hexact) Hrw.
   pose proof (Forall_inv Hsegs) as Hb. pose proof (Forall_inv_tail Hsegs) as Hsegs'.
   destruct Hb as (Hdec & Hshape & Hhon).
   set (h := fst (seg_of b)) in *. set (p := snd (seg_of b)) in *.
@@ -714,7 +764,8 @@ Proof.
     split; [rewrite Hseq; apply wrap8_lt|].
     split; [replace (nlen cxy + (rack_level rw + 1)) with (nlen cxy + 1 + rack_level rw) by lia; exact Hacks|].
     split; [exact Hcont|].
-    rewrite !blen_app. lia. }
+    split; [rewrite !blen_app; lia|].
+    rewrite Hexact. lia. }
   assert (Econtrib : contrib b = prefix_of h ++ p) by reflexivity.
   cbn [map concat] in Heq. rewrite Econtrib in Heq.
   destruct (is_standalone_ack h) eqn:Esa.
@@ -857,8 +908,8 @@ Proof.
   split; [reflexivity|]. split; [rewrite nlen_cons in Hn; lia|].
   split; [rewrite Hpenc; reflexivity|]. split; [assumption|]. split; [assumption|]. split; [assumption|].
   split; [rewrite Hq in Hmsgs; inversion Hmsgs; assumption|].
-  destruct Hrest as (Ho1 & Ho2 & Ho3 & Hsegs & Hseqs & Hlast & Hwin & Hlev & Hsw & Hsl & Hrs & Hacks & Hcont & Hspace).
-  repeat (split; [assumption|]). lia.
+  destruct Hrest as (Ho1 & Ho2 & Ho3 & Hsegs & Hseqs & Hlast & Hwin & Hlev & Hsw & Hsl & Hrs & Hacks & Hcont & Hspace & Hexact).
+  repeat (split; [assumption|]). split; [lia|assumption].
 Qed.
 
 (** ** the two ends together, seen from one of them *)
@@ -871,11 +922,19 @@ Definition epinv (i : inner) (peer : N) : Prop :=
 Definition sysinv2 (me peer : inner) (co ci : list bytes) (qm qp : list bytes) (pa ma : N) : Prop :=
   epinv me pa /\ epinv peer ma /\
   dirinv (send (sess me)) (out_buf me) (out_off me) (recv (sess peer)) co ci qm /\
-  dirinv (send (sess peer)) (out_buf peer) (out_off peer) (recv (sess me)) ci co qp.
+  dirinv (send (sess peer)) (out_buf peer) (out_off peer) (recv (sess me)) ci co qp /\
+  (* never both send windows exhausted without an ACK on its way *)
+  (slevel (send (sess me)) = 0 -> slevel (send (sess peer)) = 0 ->
+   acks_of co <> [] \/ acks_of ci <> []) /\
+  (* something is always outstanding: every ACK is itself a segment to acknowledge *)
+  1 <= (w - slevel (send (sess me))) + (w - slevel (send (sess peer))).
 
 Lemma sysinv2_sym me peer co ci qm qp pa ma :
   sysinv2 me peer co ci qm qp pa ma -> sysinv2 peer me ci co qp qm ma pa.
-Proof. intros (H1 & H2 & H3 & H4). split; [exact H2|]. split; [exact H1|]. split; [exact H4|exact H3]. Qed.
+Proof.
+  intros (H1 & H2 & H3 & H4 & HJ & HD). split; [exact H2|]. split; [exact H1|]. split; [exact H4|].
+  split; [exact H3|]. split; [|lia]. intros Ha Hb. destruct (HJ Hb Ha); auto.
+Qed.
 
 Lemma hdr_decode_first b h p :
   hdr_decode b = Ok (h, p) -> fH h = false -> is_data_seg b = true.
@@ -896,19 +955,20 @@ Qed.
 Lemma v_submit me peer co ci qm qp pa ma d :
   sysinv2 me peer co ci qm qp pa ma ->
   (snd (step me (OSend d pa)) = RTrue /\
-   sysinv2 (fst (step me (OSend d pa))) peer co ci (qm ++ [d]) qp pa ma) \/
+   sysinv2 (fst (step me (OSend d pa))) peer co ci (qm ++ [d]) qp pa ma /\
+   recv (sess (fst (step me (OSend d pa)))) = recv (sess me)) \/
   (snd (step me (OSend d pa)) = RNone /\ fst (step me (OSend d pa)) = me) \/
   ((exists c, snd (step me (OSend d pa)) = RErr c) /\ fst (step me (OSend d pa)) = me /\
    ((blen d =? 0) || (MAX_TX <? blen d)) = true).
 Proof.
-  intros (Hme & Hpeer & Hd1 & Hd2). cbn [step]. unfold inner_send.
+  intros (Hme & Hpeer & Hd1 & Hd2 & HJ & HD). cbn [step]. unfold inner_send.
   destruct ((blen d =? 0) || (MAX_TX <? blen d)) eqn:Ebad.
   - right. right. cbn [fst snd]. eauto.
   - apply orb_false_iff in Ebad. destruct Ebad as [E0 Emax].
     destruct (N.eqb_spec (blen (out_buf me)) 0) as [Eb|Eb]; cbn [fst snd].
-    + left. split; [reflexivity|].
+    + left. split; [reflexivity|]. split; [|reflexivity].
       destruct Hme as (Hs & Hp & Hmt & Hsw & Ha & Hoa).
-      split; [|split; [assumption|split; [|exact Hd2]]].
+      split; [|split; [assumption|split; [|split; [exact Hd2|split; assumption]]]].
       * unfold epinv. cbn [sess out_buf out_addr]. repeat (split; [assumption|]). auto.
       * cbn [sess out_buf out_off]. eapply dir_submit; [exact Hd1|exact Eb|]. unfold msg_ok. lia.
     + right. left. auto.
@@ -927,9 +987,10 @@ Qed.
 Lemma v_deliver me peer co b ci qm qp pa ma g :
   sysinv2 me peer co (b :: ci) qm qp pa ma ->
   snd (step me (OIn g pa b)) = RUnit /\ is_data_seg b = true /\
-  sysinv2 (fst (step me (OIn g pa b))) peer co ci qm qp pa ma.
+  sysinv2 (fst (step me (OIn g pa b))) peer co ci qm qp pa ma /\
+  rack_level (recv (sess (fst (step me (OIn g pa b))))) = rack_level (recv (sess me)) + 1.
 Proof.
-  intros (Hme & Hpeer & Hd1 & Hd2).
+  intros (Hme & Hpeer & Hd1 & Hd2 & HJ & HD).
   destruct Hme as (Hs & Hp & Hmt & Hsw & Ha & Hoa).
   assert (Hseg : seg_ok m b).
   { destruct Hd2 as (? & ? & ? & _ & _ & _ & _ & _ & _ & _ & _ & _ & _ & Hsegs & _). exact (Forall_inv Hsegs). }
@@ -937,14 +998,24 @@ Proof.
   destruct Hseg as (Hdec & (EH & _) & _).
   pose proof Hs as (Hsok & Hrok & _).
   rewrite Hsw in Hrok.
-  destruct (dir_deliver_tx _ _ _ _ _ _ _ _ Hd1) as (Hchk & Hd1').
+  destruct (dir_deliver_tx _ _ _ _ _ _ _ _ Hd1) as (Hchk & Hd1' & Hopen).
   destruct (dir_deliver_rx _ _ _ _ _ _ _ _ Hd2 Hrok) as (rw' & Hacc & Hd2').
+  assert (Hrack' : rack_level rw' = rack_level (recv (sess me)) + 1 /\
+                   nlen ci + rack_level rw' <= w - slevel (send (sess peer))).
+  { split.
+    - pose proof Hacc as Hacc2. apply rw_accept_ok in Hacc2; [|apply Hrok].
+      destruct Hacc2 as (_ & _ & _ & _ & ? & ? & -> & _). cbn [rack_level]. reflexivity.
+    - destruct Hd2' as (? & ? & ? & _ & _ & _ & _ & _ & _ & _ & _ & _ & _ & _ & _ & _ & Hwin' & _). exact Hwin'. }
   cbn [step]. unfold process_incoming, process_rx. rewrite Hdec.
   destruct (seg_of b) as [h p]. cbn [fst snd bind] in *. rewrite EH.
   unfold process_rx_data. rewrite Hchk. cbn [bind]. rewrite <- Hmt in Hacc. rewrite Hacc. cbn [bind].
   rewrite (sw_accept_after_check _ _ Hsok Hchk). cbn [bind fst snd].
-  split; [reflexivity|]. split; [assumption|].
-  split; [|split; [assumption|split; assumption]].
+  split; [reflexivity|]. split; [assumption|]. split; [|cbn [sess recv]; apply Hrack'].
+  split; [|split; [assumption|split; [assumption|split; [assumption|]]]].
+  2:{ cbn [sess send]. split.
+      - intros Hz Hzp. destruct (get_ack h) as [a|]; cbn [slevel] in Hz; [lia|].
+        rewrite <- Hopen. auto.
+      - lia. }
   unfold epinv. cbn [sess out_buf out_addr mtu hs_pending send address].
   split.
   { apply sess_ok_static; try assumption.
@@ -960,15 +1031,17 @@ Lemma v_fetch me peer co ci qm qp pa ma :
   sysinv2 me peer co ci qm qp pa ma ->
   (snd (step me (ORecv RECV_CAP)) = RNone /\ fst (step me (ORecv RECV_CAP)) = me) \/
   (exists x qp', snd (step me (ORecv RECV_CAP)) = RBytes x /\ qp = x :: qp' /\
-     sysinv2 (fst (step me (ORecv RECV_CAP))) peer co ci qm qp' pa ma).
+     sysinv2 (fst (step me (ORecv RECV_CAP))) peer co ci qm qp' pa ma /\
+     rack_level (recv (sess (fst (step me (ORecv RECV_CAP))))) = rack_level (recv (sess me))).
 Proof.
-  intros (Hme & Hpeer & Hd1 & Hd2). cbn [step]. unfold inner_recv.
+  intros (Hme & Hpeer & Hd1 & Hd2 & HJ & HD). cbn [step]. unfold inner_recv.
   destruct (N.ltb_spec 0 (rmsgs (recv (sess me)))) as [Hpos|Hz]; [|left; auto].
   right.
   destruct (dir_fetch _ _ _ _ _ _ _ Hd2 Hpos) as (x & qp' & rw' & Eq & Hf & E1 & E2 & E3 & E4 & E5 & Hd2').
   rewrite Hf. cbn [fst snd]. exists x, qp'. split; [reflexivity|]. split; [assumption|].
+  split; [|cbn [sess recv]; exact E2].
   destruct Hme as (Hs & Hp & Hmt & Hsw & Ha & Hoa).
-  split; [|split; [assumption|split; assumption]].
+  split; [|split; [assumption|split; [assumption|split; [assumption|split; assumption]]]].
   unfold epinv. cbn [sess out_buf out_addr mtu hs_pending send address].
   split.
   { apply sess_ok_static; try assumption; [apply Hs|reflexivity|].
@@ -977,19 +1050,49 @@ Proof.
   repeat (split; [assumption|]). assumption.
 Qed.
 
+(** after an emission: an exhausted sender has just put an ACK on the wire *)
+Lemma emit_JD (sw : sendw) (r : recvw) (sp : sendw) (co ci : list bytes) (h : hdr) (p : bytes) :
+  sw_is_full sw r = false -> slevel sw <= w -> hdr_wf h -> get_ack h = rw_pending_ack r ->
+  (slevel sw - 1 = 0 -> slevel sp = 0 -> acks_of (co ++ [hdr_encode h ++ p]) <> [] \/ acks_of ci <> []) /\
+  1 <= (w - (slevel sw - 1)) + (w - slevel sp).
+Proof.
+  intros Hfull Hslw Hwf Hack. pose proof (not_full_level _ _ Hfull) as Hlev.
+  split; [|lia]. intros Hz _. left.
+  rewrite acks_of_snoc, seg_of_encode by assumption. cbn [fst]. rewrite Hack.
+  unfold sw_is_full in Hfull. apply orb_false_iff in Hfull. destruct Hfull as [_ Hf].
+  destruct (N.eqb_spec (slevel sw) 1); [|lia]. cbn [andb] in Hf.
+  destruct (rw_pending_ack r); [|discriminate Hf].
+  destruct (acks_of co); discriminate.
+Qed.
+
+Lemma seg_has_ack_encode h p : hdr_wf h -> fH h = false ->
+  seg_has_ack (hdr_encode h ++ p) = is_some (get_ack h).
+Proof.
+  intros Hwf EH. unfold seg_has_ack. rewrite hdr_decode_encode by assumption. rewrite EH.
+  unfold get_ack. destruct (fA h); reflexivity.
+Qed.
+
+Lemma after_tx_rack s :
+  rack_level (recv (after_tx s)) =
+  (if is_some (rw_pending_ack (recv s)) then 0 else rack_level (recv s)).
+Proof. unfold after_tx. cbn [recv]. destruct (is_some _); reflexivity. Qed.
+
 Lemma v_poll me peer co ci qm qp pa ma g t :
   sysinv2 me peer co ci qm qp pa ma ->
   (snd (step me (OOut g t POLL_CAP)) = RBytes [] /\ fst (step me (OOut g t POLL_CAP)) = me) \/
   (exists x l, snd (step me (OOut g t POLL_CAP)) = RBytes (x :: l) /\ is_data_seg (x :: l) = true /\
-     sysinv2 (fst (step me (OOut g t POLL_CAP))) peer (co ++ [x :: l]) ci qm qp pa ma).
+     sysinv2 (fst (step me (OOut g t POLL_CAP))) peer (co ++ [x :: l]) ci qm qp pa ma /\
+     rack_level (recv (sess (fst (step me (OOut g t POLL_CAP))))) =
+       (if seg_has_ack (x :: l) then 0 else rack_level (recv (sess me)))).
 Proof.
-  intros (Hme & Hpeer & Hd1 & Hd2).
+  intros (Hme & Hpeer & Hd1 & Hd2 & HJ & HD).
   destruct me as [s oa buf off]. destruct Hme as (Hs & Hp & Hmt & Hsw & Ha & Hoa).
   cbn [sess out_buf out_off out_addr] in *.
   assert (Hloc : off <= blen buf /\ (blen buf <> 0 -> off < blen buf /\ blen buf <= MAX_TX)).
   { destruct Hd1 as (? & ? & ? & _ & _ & _ & _ & _ & _ & _ & H8 & H9 & _). auto. }
   destruct Hloc as (Hoff & Hbufc).
   assert (Hrs : rack_seq (recv s) < 256) by (destruct Hs as (_ & (_ & _ & H3 & _) & _); exact H3).
+  assert (Hslw : slevel (send s) <= w) by (destruct Hs as ((_ & H2 & _) & _); lia).
   cbn [step].
   rewrite (poll_est s oa buf off g t).
   2:{ split; assumption. }
@@ -1019,9 +1122,10 @@ Proof.
     assert (Enc : exists x l, hdr_encode h ++ [] = x :: l) by (unfold hdr_encode; cbn [app]; eauto).
     destruct Enc as (x & l & Enc). rewrite Enc. exists x, l. split; [reflexivity|].
     rewrite <- Enc. split; [apply is_data_encode; apply Hshape|].
+    split; [|cbn [sess]; rewrite after_tx_rack, seg_has_ack_encode, Eack by (try assumption; apply Hshape); reflexivity].
     split; [unfold epinv; cbn [sess out_buf out_addr]; repeat (split; [assumption|]); assumption|].
     split; [assumption|]. cbn [sess out_buf out_off].
-    split.
+    split; [|split].
     + replace (send (after_tx s)) with (mkSW (swin (send s)) (slevel (send s) - 1) (wrap8 (slast (send s) + 1))) by reflexivity.
       destruct (Hcont (rem_of buf off)) as (Hc1 & Hc2).
       eapply dir_emit_tx; try eassumption.
@@ -1034,6 +1138,8 @@ Proof.
                    (rack_seq (recv s)) (rrem (recv s))
          else recv s) by reflexivity.
       apply dir_emit_rx; assumption.
+    + cbn [sess send]. replace (send (after_tx s)) with (mkSW (swin (send s)) (slevel (send s) - 1) (wrap8 (slast (send s) + 1))) by reflexivity.
+      cbn [slevel]. apply (emit_JD (send s) (recv s)); assumption.
   - (* a segment of the queued SDU *)
     right. destruct (Hbufc Hne) as (Hlt & Hmax).
     assert (Hbuf1 : 1 <= blen buf <= MAX_TX) by lia.
@@ -1044,6 +1150,7 @@ Proof.
     assert (Enc : exists x l, hdr_encode h ++ p = x :: l) by (unfold hdr_encode; cbn [app]; eauto).
     destruct Enc as (x & l & Enc). rewrite Enc. exists x, l. split; [reflexivity|].
     rewrite <- Enc. split; [apply is_data_encode; apply Hshape|].
+    split; [|cbn [sess]; rewrite after_tx_rack, seg_has_ack_encode, Eack by (try assumption; apply Hshape); reflexivity].
     assert (Hloc' : off_after buf off p <= blen (buf_after buf off p) /\
                     (blen (buf_after buf off p) <> 0 ->
                      off_after buf off p < blen (buf_after buf off p) /\ blen (buf_after buf off p) <= MAX_TX) /\
@@ -1056,7 +1163,7 @@ Proof.
     { unfold epinv. cbn [sess out_buf out_addr]. repeat (split; [assumption|]).
       unfold buf_after. destruct (off + blen p =? blen buf); [rewrite blen_nil; intro Hx; lia|exact Hoa]. }
     split; [assumption|]. cbn [sess out_buf out_off].
-    split.
+    split; [|split].
     + replace (send (after_tx s)) with (mkSW (swin (send s)) (slevel (send s) - 1) (wrap8 (slast (send s) + 1))) by reflexivity.
       eapply dir_emit_tx; try eassumption.
       split; [exact Hc1|]. intros _. exact Hfinal.
@@ -1066,13 +1173,16 @@ Proof.
                    (rack_seq (recv s)) (rrem (recv s))
          else recv s) by reflexivity.
       apply dir_emit_rx; assumption.
+    + cbn [sess send]. replace (send (after_tx s)) with (mkSW (swin (send s)) (slevel (send s) - 1) (wrap8 (slast (send s) + 1))) by reflexivity.
+      cbn [slevel]. apply (emit_JD (send s) (recv s)); assumption.
 Qed.
 
 (** ** the whole system *)
 
 Definition sysinv (c : cfg) (s : sys) (p : pstate) : Prop :=
   sysinv2 (epA s) (epB s) (chAB s) (chBA s) (w_ab p) (w_ba p) (addrB c) (addrA c) /\
-  f_ab p = nlen (chAB s) /\ f_ba p = nlen (chBA s).
+  f_ab p = nlen (chAB s) /\ f_ba p = nlen (chBA s) /\
+  o_ab p = rack_level (recv (sess (epB s))) /\ o_ba p = rack_level (recv (sess (epA s))).
 
 Lemma win_ok_inv me peer co ci qm qp pa ma :
   sysinv2 me peer co ci qm qp pa ma -> win_ok (nlen co) (snap_of me) (snap_of peer) = true.
@@ -1084,17 +1194,11 @@ Proof.
   lia.
 Qed.
 
-Lemma data_head (b : bytes) (c : list bytes) :
-  Forall (seg_ok m) (b :: c) -> is_data_seg b = true.
-Proof. intro H. apply seg_ok_data. exact (Forall_inv H). Qed.
-
-Lemma sysinv_chan_ok c s p :
-  sysinv c s p -> Forall (seg_ok m) (chAB s) /\ Forall (seg_ok m) (chBA s).
+Lemma ps_ok_inv c s p : sysinv c s p -> ps_ok p (snap_of (epA s)) (snap_of (epB s)) = true.
 Proof.
-  intros ((_ & _ & Hd1 & Hd2) & _).
-  destruct Hd1 as (? & ? & ? & _ & _ & _ & _ & _ & _ & _ & _ & _ & _ & H1 & _).
-  destruct Hd2 as (? & ? & ? & _ & _ & _ & _ & _ & _ & _ & _ & _ & _ & H2 & _).
-  auto.
+  intros (H2 & Hfa & Hfb & Hoa & Hob). unfold ps_ok.
+  rewrite Hfa, Hfb, (win_ok_inv _ _ _ _ _ _ _ _ H2), (win_ok_inv _ _ _ _ _ _ _ _ (sysinv2_sym _ _ _ _ _ _ _ _ H2)).
+  unfold snap_of. cbn [n_rack andb]. rewrite Hoa, Hob, !N.eqb_refl. reflexivity.
 Qed.
 
 (** one step of the system, judged by the monitor *)
@@ -1117,76 +1221,91 @@ Lemma sys_step_inv c s p o :
               | SPoll SB _, RBytes (x :: l) => chBA s ++ [x :: l]
               | SDeliver SA, _ => tl (chBA s)
               | _, _ => chBA s
-              end /\
-    match o, r with
-    | SPoll _ _, RBytes (x :: l) => is_data_seg (x :: l) = true
-    | _, _ => True
-    end.
+              end.
 Proof.
-  intros (H2 & Hfa & Hfb). pose proof (sysinv2_sym _ _ _ _ _ _ _ _ H2) as H2'.
-  destruct s as [A B cab cba]. destruct p as [wab wba fab fba].
-  cbn [epA epB chAB chBA w_ab w_ba f_ab f_ba] in *.
+  intros (H2 & Hfa & Hfb & Hoa & Hob). pose proof (sysinv2_sym _ _ _ _ _ _ _ _ H2) as H2'.
+  destruct s as [A B cab cba]. destruct p as [wab wba fab fba oab oba].
+  cbn [epA epB chAB chBA w_ab w_ba f_ab f_ba o_ab o_ba] in *.
   destruct o as [x d|x t|x|x]; destruct x; cbv zeta; cbn [sys_step ep set_ep ch_to set_ch_to other gatt_of addr_of
     epA epB chAB chBA].
   - (* A submits *)
-    destruct (v_submit _ _ _ _ _ _ _ _ d H2) as [(Er & Hinv)|[(Er & Eme)|((cc & Er) & Eme & Ebad)]];
+    destruct (v_submit _ _ _ _ _ _ _ _ d H2) as [(Er & Hinv & Erx)|[(Er & Eme)|((cc & Er) & Eme & Ebad)]];
       destruct (step A (OSend d (addrB c))) as [i r]; cbn [fst snd] in *; subst r.
-    + eexists. split; [reflexivity|]. cbn [fst snd chAB chBA]. split; [|cbn [fst snd chAB chBA tl]; auto].
-      split; [exact Hinv|]. cbn [fst snd f_ab f_ba w_ab w_ba chAB chBA set_ch_to epA epB tl]. auto.
-    + subst i. eexists. split; [reflexivity|]. cbn [fst snd chAB chBA]. split; [|cbn [fst snd chAB chBA tl]; auto]. split; [exact H2|auto].
-    + subst i. eexists. split; [cbn [fst snd pmon_step is_bad]; rewrite Ebad; reflexivity|].
-      cbn [fst snd chAB chBA]. split; [|cbn [fst snd chAB chBA tl]; auto]. split; [exact H2|auto].
+    + eexists. split; [reflexivity|]. cbn [fst snd chAB chBA]. split; [|auto].
+      unfold sysinv; cbn [epA epB chAB chBA w_ab w_ba ps_deliver ps_emit]; split; [exact Hinv|]. cbn [f_ab f_ba o_ab o_ba chAB chBA epA epB]. rewrite Erx. auto.
+    + subst i. eexists. split; [reflexivity|]. cbn [fst snd chAB chBA]. split; [|auto].
+      split; [exact H2|auto].
+    + subst i. eexists. split; [cbn [pmon_step is_bad]; rewrite Ebad; reflexivity|].
+      cbn [fst snd chAB chBA]. split; [|auto]. split; [exact H2|auto].
   - (* B submits *)
-    destruct (v_submit _ _ _ _ _ _ _ _ d H2') as [(Er & Hinv)|[(Er & Eme)|((cc & Er) & Eme & Ebad)]];
+    destruct (v_submit _ _ _ _ _ _ _ _ d H2') as [(Er & Hinv & Erx)|[(Er & Eme)|((cc & Er) & Eme & Ebad)]];
       destruct (step B (OSend d (addrA c))) as [i r]; cbn [fst snd] in *; subst r.
-    + eexists. split; [reflexivity|]. cbn [fst snd chAB chBA]. split; [|cbn [fst snd chAB chBA tl]; auto].
-      split; [apply sysinv2_sym; exact Hinv|]. cbn [fst snd f_ab f_ba w_ab w_ba chAB chBA set_ch_to epA epB tl]. auto.
-    + subst i. eexists. split; [reflexivity|]. cbn [fst snd chAB chBA]. split; [|cbn [fst snd chAB chBA tl]; auto]. split; [exact H2|auto].
-    + subst i. eexists. split; [cbn [fst snd pmon_step is_bad]; rewrite Ebad; reflexivity|].
-      cbn [fst snd chAB chBA]. split; [|cbn [fst snd chAB chBA tl]; auto]. split; [exact H2|auto].
+    + eexists. split; [reflexivity|]. cbn [fst snd chAB chBA]. split; [|auto].
+      unfold sysinv; cbn [epA epB chAB chBA w_ab w_ba ps_deliver ps_emit]; split; [apply sysinv2_sym; exact Hinv|]. cbn [f_ab f_ba o_ab o_ba chAB chBA epA epB]. rewrite Erx. auto.
+    + subst i. eexists. split; [reflexivity|]. cbn [fst snd chAB chBA]. split; [|auto].
+      split; [exact H2|auto].
+    + subst i. eexists. split; [cbn [pmon_step is_bad]; rewrite Ebad; reflexivity|].
+      cbn [fst snd chAB chBA]. split; [|auto]. split; [exact H2|auto].
   - (* A polls *)
-    destruct (v_poll _ _ _ _ _ _ _ _ (gattA c) t H2) as [(Er & Eme)|(x & l & Er & Hdata & Hinv)];
+    destruct (v_poll _ _ _ _ _ _ _ _ (gattA c) t H2) as [(Er & Eme)|(x & l & Er & Hdata & Hinv & Erk)];
       destruct (step A (OOut (gattA c) t POLL_CAP)) as [i r]; cbn [fst snd] in *; subst r.
-    + subst i. eexists. split; [reflexivity|]. cbn [fst snd chAB chBA]. split; [|cbn [fst snd chAB chBA tl]; auto]. split; [exact H2|auto].
-    + eexists. split; [cbn [fst snd pmon_step is_bad]; rewrite Hdata; reflexivity|].
-      cbn [fst snd chAB chBA set_ch_to epA epB tl]. split; [|cbn [fst snd chAB chBA tl]; auto].
-      split; [exact Hinv|]. cbn [fst snd f_ab f_ba w_ab w_ba chAB chBA set_ch_to epA epB tl]. rewrite nlen_app, nlen_cons, nlen_nil. split; lia.
+    + subst i. eexists. split; [reflexivity|]. cbn [fst snd chAB chBA]. split; [|auto].
+      split; [exact H2|auto].
+    + eexists. split; [reflexivity|].
+      cbn [fst snd chAB chBA set_ch_to epA epB tl]. split; [|auto].
+      unfold sysinv; cbn [epA epB chAB chBA w_ab w_ba ps_deliver ps_emit]; split; [exact Hinv|]. unfold ps_emit. rewrite Hdata.
+      cbn [fst snd f_ab f_ba w_ab w_ba o_ab o_ba chAB chBA set_ch_to epA epB tl].
+      rewrite nlen_app, nlen_cons, nlen_nil, Erk.
+      destruct (seg_has_ack (x :: l)); repeat split; try lia; assumption.
   - (* B polls *)
-    destruct (v_poll _ _ _ _ _ _ _ _ (gattB c) t H2') as [(Er & Eme)|(x & l & Er & Hdata & Hinv)];
+    destruct (v_poll _ _ _ _ _ _ _ _ (gattB c) t H2') as [(Er & Eme)|(x & l & Er & Hdata & Hinv & Erk)];
       destruct (step B (OOut (gattB c) t POLL_CAP)) as [i r]; cbn [fst snd] in *; subst r.
-    + subst i. eexists. split; [reflexivity|]. cbn [fst snd chAB chBA]. split; [|cbn [fst snd chAB chBA tl]; auto]. split; [exact H2|auto].
-    + eexists. split; [cbn [fst snd pmon_step is_bad]; rewrite Hdata; reflexivity|].
-      cbn [fst snd chAB chBA set_ch_to epA epB tl]. split; [|cbn [fst snd chAB chBA tl]; auto].
-      split; [apply sysinv2_sym; exact Hinv|]. cbn [fst snd f_ab f_ba w_ab w_ba chAB chBA set_ch_to epA epB tl].
-      rewrite nlen_app, nlen_cons, nlen_nil. split; lia.
+    + subst i. eexists. split; [reflexivity|]. cbn [fst snd chAB chBA]. split; [|auto].
+      split; [exact H2|auto].
+    + eexists. split; [reflexivity|].
+      cbn [fst snd chAB chBA set_ch_to epA epB tl]. split; [|auto].
+      unfold sysinv; cbn [epA epB chAB chBA w_ab w_ba ps_deliver ps_emit]; split; [apply sysinv2_sym; exact Hinv|]. unfold ps_emit. rewrite Hdata.
+      cbn [fst snd f_ab f_ba w_ab w_ba o_ab o_ba chAB chBA set_ch_to epA epB tl].
+      rewrite nlen_app, nlen_cons, nlen_nil, Erk.
+      destruct (seg_has_ack (x :: l)); repeat split; try lia; assumption.
   - (* a segment arrives at A *)
     destruct cba as [|b cba'].
-    + cbn [fst snd]. eexists. split; [reflexivity|]. cbn [chAB chBA tl]. split; [|cbn [fst snd chAB chBA tl]; auto]. split; [exact H2|auto].
-    + destruct (v_deliver _ _ _ _ _ _ _ _ _ (gattA c) H2) as (Er & Hdata & Hinv).
+    + cbn [fst snd]. eexists. split; [reflexivity|]. cbn [fst snd chAB chBA tl]. split; [|auto].
+      split; [exact H2|auto].
+    + destruct (v_deliver _ _ _ _ _ _ _ _ _ (gattA c) H2) as (Er & Hdata & Hinv & Erk).
       destruct (step A (OIn (gattA c) (addrB c) b)) as [i r]; cbn [fst snd] in *; subst r.
-      eexists. split; [cbn [fst snd pmon_step is_bad]; rewrite Hdata; reflexivity|].
-      cbn [fst snd chAB chBA set_ch_to epA epB tl]. split; [|cbn [fst snd chAB chBA tl]; auto].
-      split; [exact Hinv|]. cbn [fst snd f_ab f_ba w_ab w_ba chAB chBA set_ch_to epA epB tl]. rewrite nlen_cons in Hfb. split; lia.
+      eexists. split; [cbn [pmon_step is_bad]; reflexivity|]. unfold ps_deliver. rewrite Hdata.
+      cbn [fst snd chAB chBA set_ch_to epA epB tl]. split; [|auto].
+      unfold sysinv; cbn [epA epB chAB chBA w_ab w_ba ps_deliver ps_emit]; split; [exact Hinv|].
+      cbn [fst snd f_ab f_ba w_ab w_ba o_ab o_ba chAB chBA set_ch_to epA epB tl].
+      rewrite nlen_cons in Hfb. rewrite Erk. repeat split; try lia; assumption.
   - (* a segment arrives at B *)
     destruct cab as [|b cab'].
-    + cbn [fst snd]. eexists. split; [reflexivity|]. cbn [chAB chBA tl]. split; [|cbn [fst snd chAB chBA tl]; auto]. split; [exact H2|auto].
-    + destruct (v_deliver _ _ _ _ _ _ _ _ _ (gattB c) H2') as (Er & Hdata & Hinv).
+    + cbn [fst snd]. eexists. split; [reflexivity|]. cbn [fst snd chAB chBA tl]. split; [|auto].
+      split; [exact H2|auto].
+    + destruct (v_deliver _ _ _ _ _ _ _ _ _ (gattB c) H2') as (Er & Hdata & Hinv & Erk).
       destruct (step B (OIn (gattB c) (addrA c) b)) as [i r]; cbn [fst snd] in *; subst r.
-      eexists. split; [cbn [fst snd pmon_step is_bad]; rewrite Hdata; reflexivity|].
-      cbn [fst snd chAB chBA set_ch_to epA epB tl]. split; [|cbn [fst snd chAB chBA tl]; auto].
-      split; [apply sysinv2_sym; exact Hinv|]. cbn [fst snd f_ab f_ba w_ab w_ba chAB chBA set_ch_to epA epB tl]. rewrite nlen_cons in Hfa. split; lia.
+      eexists. split; [cbn [pmon_step is_bad]; reflexivity|]. unfold ps_deliver. rewrite Hdata.
+      cbn [fst snd chAB chBA set_ch_to epA epB tl]. split; [|auto].
+      unfold sysinv; cbn [epA epB chAB chBA w_ab w_ba ps_deliver ps_emit]; split; [apply sysinv2_sym; exact Hinv|].
+      cbn [fst snd f_ab f_ba w_ab w_ba o_ab o_ba chAB chBA set_ch_to epA epB tl].
+      rewrite nlen_cons in Hfa. rewrite Erk. repeat split; try lia; assumption.
   - (* A fetches *)
-    destruct (v_fetch _ _ _ _ _ _ _ _ H2) as [(Er & Eme)|(x & q' & Er & Eq & Hinv)];
+    destruct (v_fetch _ _ _ _ _ _ _ _ H2) as [(Er & Eme)|(x & q' & Er & Eq & Hinv & Erk)];
       destruct (step A (ORecv RECV_CAP)) as [i r]; cbn [fst snd] in *; subst r.
-    + subst i. eexists. split; [reflexivity|]. cbn [fst snd chAB chBA]. split; [|cbn [fst snd chAB chBA tl]; auto]. split; [exact H2|auto].
-    + subst wba. eexists. split; [cbn [pmon_step is_bad w_ba]; rewrite bytes_eqb_refl; reflexivity|].
-      cbn [fst snd chAB chBA]. split; [|cbn [fst snd chAB chBA tl]; auto]. split; [exact Hinv|auto].
+    + subst i. eexists. split; [reflexivity|]. cbn [fst snd chAB chBA]. split; [|auto].
+      split; [exact H2|auto].
+    + subst wba. eexists. split; [cbn [fst snd pmon_step is_bad w_ba]; rewrite bytes_eqb_refl; reflexivity|].
+      cbn [fst snd chAB chBA]. split; [|auto]. unfold sysinv; cbn [epA epB chAB chBA w_ab w_ba ps_deliver ps_emit]; split; [exact Hinv|].
+      cbn [f_ab f_ba o_ab o_ba chAB chBA epA epB]. rewrite Erk. auto.
   - (* B fetches *)
-    destruct (v_fetch _ _ _ _ _ _ _ _ H2') as [(Er & Eme)|(x & q' & Er & Eq & Hinv)];
+    destruct (v_fetch _ _ _ _ _ _ _ _ H2') as [(Er & Eme)|(x & q' & Er & Eq & Hinv & Erk)];
       destruct (step B (ORecv RECV_CAP)) as [i r]; cbn [fst snd] in *; subst r.
-    + subst i. eexists. split; [reflexivity|]. cbn [fst snd chAB chBA]. split; [|cbn [fst snd chAB chBA tl]; auto]. split; [exact H2|auto].
-    + subst wab. eexists. split; [cbn [pmon_step is_bad w_ab]; rewrite bytes_eqb_refl; reflexivity|].
-      cbn [fst snd chAB chBA]. split; [|cbn [fst snd chAB chBA tl]; auto]. split; [apply sysinv2_sym; exact Hinv|auto].
+    + subst i. eexists. split; [reflexivity|]. cbn [fst snd chAB chBA]. split; [|auto].
+      split; [exact H2|auto].
+    + subst wab. eexists. split; [cbn [fst snd pmon_step is_bad w_ab]; rewrite bytes_eqb_refl; reflexivity|].
+      cbn [fst snd chAB chBA]. split; [|auto]. unfold sysinv; cbn [epA epB chAB chBA w_ab w_ba ps_deliver ps_emit]; split; [apply sysinv2_sym; exact Hinv|].
+      cbn [f_ab f_ba o_ab o_ba chAB chBA epA epB]. rewrite Erk. auto.
 Qed.
 
 Lemma map_tl {A B} (f : A -> B) l : map f (tl l) = tl (map f l).
@@ -1208,7 +1327,7 @@ Lemma pmon_run_inv c ops : forall s p,
 Proof.
   induction ops as [|o ops IH]; intros s p Hinv; [reflexivity|].
   rewrite sys_run_cons. cbn [snd pmon_run].
-  destruct (sys_step_inv c s p o Hinv) as (p' & Hstep & Hinv' & HcAB & HcBA & Hdata).
+  destruct (sys_step_inv c s p o Hinv) as (p' & Hstep & Hinv' & HcAB & HcBA).
   cbv zeta in *.
   set (s' := fst (sys_step c s o)) in *. set (r := snd (sys_step c s o)) in *.
   assert (Ehd : match o with
@@ -1223,11 +1342,7 @@ Proof.
                 end).
   { destruct o as [x d|x t|x|x]; try reflexivity. destruct x; [destruct (chBA s)|destruct (chAB s)]; reflexivity. }
   rewrite Ehd, Hstep.
-  destruct Hinv' as (H2 & Hfa & Hfb).
-  rewrite Hfa, Hfb.
-  rewrite (win_ok_inv _ _ _ _ _ _ _ _ H2).
-  rewrite (win_ok_inv _ _ _ _ _ _ _ _ (sysinv2_sym _ _ _ _ _ _ _ _ H2)).
-  cbn [andb].
+  rewrite (ps_ok_inv _ _ _ Hinv'). cbn [andb].
   assert (EA : match o, r with
                | SPoll SA _, RBytes (x :: l) => map is_data_seg (chAB s) ++ [is_data_seg (x :: l)]
                | SDeliver SB, _ => tl (map is_data_seg (chAB s))
@@ -1242,7 +1357,7 @@ Proof.
                end = map is_data_seg (chBA s')).
   { rewrite HcBA. destruct o as [[]?|[]?|[]|[]]; destruct r as [|[|? ?]| | | |];
       rewrite ?map_app, ?map_tl; reflexivity. }
-  rewrite EA, EB. apply IH. split; [exact H2|split; assumption].
+  rewrite EA, EB. apply IH. exact Hinv'.
 Qed.
 
 Lemma sys_run_inv c ops : forall s p,
@@ -1254,12 +1369,12 @@ Proof.
   eapply IH. exact Hinv'.
 Qed.
 
-Lemma established_inv c ver rel : sysinv c (sys_established c ver m w rel) ps_init.
+Lemma established_inv c ver rel : sysinv c (sys_established c ver m w rel) ps_established.
 Proof.
-  unfold sysinv, sys_established, ps_init, sysinv2.
-  cbn [epA epB chAB chBA w_ab w_ba f_ab f_ba].
+  unfold sysinv, sys_established, ps_established, sysinv2.
+  cbn [epA epB chAB chBA w_ab w_ba f_ab f_ba o_ab o_ba].
   assert (Hcap0 : blen (@nil N) <= RX_CAP) by (rewrite blen_nil; unfold RX_CAP; lia).
-  split; [|split; reflexivity].
+  split; [|repeat split; reflexivity].
   split.
   { unfold epinv, sess_ok, sw_ok, rw_ok.
     cbn [sess send recv mtu hs_pending initiator swin slevel slast rlevel rack_level rmsgs rack_seq rbuf
@@ -1271,22 +1386,24 @@ Proof.
          address out_buf out_addr].
     rewrite blen_nil. repeat split; try lia; try discriminate. }
   split.
-  - exists [], [], []. cbn [sess send recv out_buf out_off swin slevel slast rlevel rack_level rmsgs rack_seq rbuf rrem].
-    unfold partial, rest_of, rem_of, acks_of. cbn [map concat app flat_map chan_seqs chan_content acks_chain].
+  { exists [], [], []. cbn [sess send recv out_buf out_off swin slevel slast rlevel rack_level rmsgs rack_seq rbuf rrem].
+    unfold partial, rest_of, rem_of, acks_of. cbn [map concat app flat_map chan_seqs chan_content acks_chain chain_end].
     rewrite !blen_nil, nlen_nil. replace (0 =? 0) with true by reflexivity.
-    repeat split; try lia; try constructor; try reflexivity.
-  - exists [], [], []. cbn [sess send recv out_buf out_off swin slevel slast rlevel rack_level rmsgs rack_seq rbuf rrem].
-    unfold partial, rest_of, rem_of, acks_of. cbn [map concat app flat_map chan_seqs chan_content acks_chain].
+    repeat split; try lia; try constructor; try reflexivity. }
+  split.
+  { exists [], [], []. cbn [sess send recv out_buf out_off swin slevel slast rlevel rack_level rmsgs rack_seq rbuf rrem].
+    unfold partial, rest_of, rem_of, acks_of. cbn [map concat app flat_map chan_seqs chan_content acks_chain chain_end].
     rewrite !blen_nil, nlen_nil. replace (0 =? 0) with true by reflexivity.
-    repeat split; try lia; try constructor; try reflexivity.
+    repeat split; try lia; try constructor; try reflexivity. }
+  cbn [sess send slevel]. split; [intros; lia|lia].
 Qed.
 
 (** ** the theorems of the two-party system *)
 
 Theorem pair_safe c ver rel ops :
-  mon_pair ops (snd (sys_run c (sys_established c ver m w rel) ops)) = true.
+  mon_pair_est ops (snd (sys_run c (sys_established c ver m w rel) ops)) = true.
 Proof.
-  unfold mon_pair. apply (pmon_run_inv c ops (sys_established c ver m w rel) ps_init).
+  unfold mon_pair_est. apply (pmon_run_inv c ops (sys_established c ver m w rel) ps_established).
   apply established_inv.
 Qed.
 
@@ -1298,7 +1415,7 @@ Theorem window_respected c ver rel ops :
   nlen (chBA s) <= rlevel (recv (sess (epA s))).
 Proof.
   cbv zeta.
-  destruct (sys_run_inv c ops _ _ (established_inv c ver rel)) as (p' & (HA & HB & Hd1 & Hd2) & _).
+  destruct (sys_run_inv c ops _ _ (established_inv c ver rel)) as (p' & (HA & HB & Hd1 & Hd2 & _) & _).
   destruct Hd1 as (? & ? & ? & _ & _ & _ & _ & _ & _ & _ & _ & _ & _ & _ & _ & _ & Hwin1 & Hlev1 & _).
   destruct Hd2 as (? & ? & ? & _ & _ & _ & _ & _ & _ & _ & _ & _ & _ & _ & _ & _ & Hwin2 & Hlev2 & _).
   destruct HA as ((_ & (HsumA & _) & _) & _ & _ & HswA & _).
@@ -1316,7 +1433,7 @@ Lemma ack_enabled_view me peer co ci qm qp pa ma g t :
     get_ack h = Some (rack_seq (recv (sess me))) /\
     rack_level (recv (sess (fst (step me (OOut g t POLL_CAP))))) = 0.
 Proof.
-  intros (Hme & Hpeer & Hd1 & Hd2) Hdue Hlev.
+  intros (Hme & Hpeer & Hd1 & Hd2 & HJ & HD) Hdue Hlev.
   destruct me as [s oa buf off]. destruct Hme as (Hs & Hp & Hmt & Hsw & Ha & Hoa).
   cbn [sess out_buf out_off out_addr] in *.
   assert (Hloc : off <= blen buf /\ (blen buf <> 0 -> off < blen buf /\ blen buf <= MAX_TX)).
@@ -1331,7 +1448,7 @@ Proof.
     rewrite Hm0. reflexivity. }
   assert (Hfull : sw_is_full (send s) (recv s) = false).
   { unfold sw_is_full. destruct (N.eqb_spec (slevel (send s)) 0); [lia|].
-    destruct (N.eqb_spec (rack_level (recv s)) 0); [lia|]. rewrite andb_false_r. reflexivity. }
+    rewrite Hpa. rewrite andb_false_r. reflexivity. }
   assert (Hrecv' : rack_level (recv (after_tx s)) = 0).
   { unfold after_tx. cbn [recv]. rewrite Hpa. reflexivity. }
   cbn [step].
